@@ -457,6 +457,32 @@ func init() {
 		}
 		funcBody("histoFullRenderBody", rend+"histoWriter.go", "HistoWriter.fullRender")
 
+		// the key column of the histogram and the bar graph (f0d0278, cde79bf): how the key is padded, what widens the
+		// column, what triggers a re-draw
+		funcBody("padVisibleBody", rend+"histoWriter.go", "padVisible")
+		funcBody("histoWriteForLineBody", rend+"histoWriter.go", "HistoWriter.WriteForLine")
+		funcBody("barsWriteBarBody", rend+"bargraph.go", "BarGraph.WriteBar")
+		{
+			var calls []string
+			okAll := true
+			for _, fn := range [][2]string{{rend + "histoWriter.go", "HistoWriter.writeLine"}, {rend + "bargraph.go", "BarGraph.writeBarGrouped"}, {rend + "bargraph.go", "BarGraph.writeBarStacked"}} {
+				fd := c.Func(fn[0], fn[1])
+				if fd == nil {
+					okAll = false
+					continue
+				}
+				ast.Inspect(fd, func(n ast.Node) bool {
+					if ce, ok := n.(*ast.CallExpr); ok {
+						if p := c.Print(ce); strings.HasPrefix(p, "color.Wrap") && strings.Contains(p, "color.Yellow") {
+							calls = append(calls, flat(ce))
+						}
+					}
+					return true
+				})
+			}
+			strList("keyCellCalls", "writeLine / writeBarGrouped / writeBarStacked: the calls that colour the key cell, in order", calls, okAll)
+		}
+
 		// cmd/reduce.go: conditions that mention GroupColCount (the table switch and the guard of the parts loop)
 		{
 			const red = "cmd/reduce.go"
